@@ -113,6 +113,48 @@ fn engine_fine(terms: &[Term], checks: u32, tier: Tier, kernels: &[&str]) -> Vec
     out
 }
 
+/// long inputs (300 .. 5000 elements) with Auto / large chunk sizes and many threads: size-dependent branches
+/// ("small input" fast paths, thresholds on the number of per-thread vectors, the Auto chunk-size search)
+fn engine_big(terms: &[Term], checks: u32, tier: Tier, kernels: &[&str]) -> Vec<Item> {
+    let th = tier == Tier::Thorough;
+    let mut out = Vec::new();
+    let ns: &[usize] = if th { &[300, 1000, 1500, 5000] } else { &[300, 1500] };
+    for (src, known) in [(Src::SVec, true), (Src::PVec, true), (Src::SIter, false)] {
+        for ch in kernels {
+            if !src.supports(chains::CHAINS.iter().position(|c| c == ch).unwrap()) {
+                continue;
+            }
+            for t in terms {
+                for n in ns {
+                    for (nt, cs) in [
+                        (NtSet::Keep, CsSet::Keep),
+                        (NtSet::Max(4), CsSet::Keep),
+                        (NtSet::Keep, CsSet::N(64)),
+                        (NtSet::Max(8), CsSet::Min(16)),
+                        (NtSet::Max(3), CsSet::N(1000)),
+                        (NtSet::Max(7), CsSet::N(7)),
+                    ] {
+                        let mut c = case(src, 0, ch, *t);
+                        c.input = (0..*n).map(|i| i as u8).collect();
+                        c.known = known;
+                        c.nt[0] = nt;
+                        c.cs[0] = cs;
+                        c.pmask = 1 << 61;
+                        for mc in mask_variants(&c, false) {
+                            out.push(item(mc.clone(), Plan::base_rr(), checks));
+                            out.push(item(mc.clone(), Plan::base_rr().with_slow0(3), checks));
+                            if th {
+                                out.push(item(mc, Plan::base_np(), checks));
+                            }
+                        }
+                    }
+                }
+            }
+        }
+    }
+    out
+}
+
 /// many workers and a slow spawner: workers are spawned after the first lag period, `Min` chunk sizes grow
 /// (the spawner's view of the remaining length depends on how far the first workers got)
 fn engine_lag(terms: &[Term], checks: u32, tier: Tier, kernels: &[&str]) -> Vec<Item> {
@@ -473,6 +515,7 @@ pub fn items(prop: &str, tier: Tier) -> Vec<Item> {
             out.extend(engine_s(&terms, CK_RESULT, tier, &kernels, true));
             out.extend(engine_lag(&[Term::CollectVec, Term::Collect], CK_RESULT, tier, &KC[1..]));
             out.extend(expansion_sweep(&[Term::CollectVec], CK_RESULT, tier, false));
+            out.extend(engine_big(&[Term::CollectVec, Term::Collect], CK_RESULT, tier, &KC4));
             out.extend(engine_fine(&[Term::CollectVec, Term::Collect], CK_RESULT, tier, &KC4));
             out.extend(engine_e(&[Term::CollectVec, Term::Collect, Term::IntoVec], CK_RESULT, tier, &[], &[]));
         }
@@ -517,6 +560,7 @@ pub fn items(prop: &str, tier: Tier) -> Vec<Item> {
             }
             out.extend(engine_lag(&[Term::Find], CK_RESULT, tier, &["", "M", "MF", "OF", "XF"]));
             out.extend(expansion_sweep(&[Term::First, Term::Find, Term::Any], CK_RESULT, tier, false));
+            out.extend(engine_big(&[Term::Find, Term::FindIdx], CK_RESULT, tier, &["", "M", "MF", "OF", "XF"]));
             out.extend(engine_fine(&[Term::Find, Term::First, Term::Any, Term::FindIdx], CK_RESULT, tier, &["", "M", "MF", "OF", "XF"]));
             // *_with_index on the concrete builder types
             for ch in ["", "M", "F", "MF", "MM", "FF"] {
@@ -609,6 +653,7 @@ pub fn items(prop: &str, tier: Tier) -> Vec<Item> {
             }
             out.extend(engine_lag(&[Term::Reduce], CK_RESULT, tier, &KC));
             out.extend(expansion_sweep(&[Term::Reduce], CK_RESULT, tier, false));
+            out.extend(engine_big(&[Term::Reduce], CK_RESULT, tier, &["", "M", "MF", "OF", "XF"]));
             out.extend(engine_fine(&[Term::Reduce], CK_RESULT, tier, &["", "M", "MF", "OF", "XF"]));
             out.extend(engine_e(&[Term::Reduce], CK_RESULT, tier, &[], &[0, 1, 2, 3]));
         }
@@ -618,6 +663,7 @@ pub fn items(prop: &str, tier: Tier) -> Vec<Item> {
             out.extend(engine_s(&[Term::Count, Term::ForEach], CK_RESULT, tier, &kernels, true));
             out.extend(engine_lag(&[Term::Count], CK_RESULT, tier, &KC));
             out.extend(expansion_sweep(&[Term::Count, Term::ForEach], CK_RESULT, tier, false));
+            out.extend(engine_big(&[Term::Count], CK_RESULT, tier, &["", "M", "MF", "OF", "XF"]));
             out.extend(engine_fine(&[Term::Count, Term::ForEach], CK_RESULT, tier, &["", "M", "MF", "OF", "XF"]));
             out.extend(engine_e(&[Term::Count, Term::ForEach], CK_RESULT, tier, &[], &[]));
         }
@@ -751,6 +797,7 @@ pub fn items(prop: &str, tier: Tier) -> Vec<Item> {
             }
             out.extend(engine_lag(&[Term::CollectX], CK_RESULT, tier, &KC));
             out.extend(expansion_sweep(&[Term::CollectX], CK_RESULT, tier, false));
+            out.extend(engine_big(&[Term::CollectX], CK_RESULT, tier, &["M", "MF", "OF", "XF"]));
             out.extend(engine_fine(&[Term::CollectX], CK_RESULT, tier, &KC));
             out.extend(engine_e(&[Term::CollectX], CK_RESULT, tier, &[], &[]));
         }
@@ -1207,6 +1254,7 @@ pub fn items(prop: &str, tier: Tier) -> Vec<Item> {
                 &[0],
             ));
             out.extend(engine_lag(&[Term::CollectVec, Term::CollectX, Term::Find], ck, tier, &["M", "MF", "XF"]));
+            out.extend(engine_big(&[Term::CollectVec, Term::Collect, Term::Find], ck, tier, &["MF", "XF"]));
             out.extend(engine_fine(&[Term::CollectVec, Term::CollectX, Term::Find, Term::Reduce], ck, tier, &["M", "MF", "OF", "XF"]));
             // eager (materialising) chains and deeper chains, sequential and parallel
             for cid in 0..chains::N_CHAINS {
